@@ -1,12 +1,12 @@
 package eng
 
 import (
-	"sync"
 	"go/constant"
 	"go/token"
 	"go/types"
 	"sort"
 	"strings"
+	"sync"
 
 	"golang.org/x/tools/go/callgraph"
 	"golang.org/x/tools/go/ssa"
